@@ -523,6 +523,35 @@ def g_emplace(ctx, F, body, site):
     for bi, t in emp:
         if not flows_into(body, conv[0][0], t["args"][2]):
             return False, "emplace is not given the converted Val"
+    # every implementation of emplace returns the entry it stored: Ok(entry(K).or_insert(V)) with V the given entry, reached only
+    # where contains_key(&K) was false for the *same* key value K (otherwise or_insert hands back an older entry of any variant)
+    impls = [fn for fn in F.all_fns(tests=False) if fn.kind != "closure" and fn.path.endswith("::emplace") and "exec::sym_table::Lookup" in fn.path and fn.mir]
+    if len(impls) < 2:
+        return False, "found %d implementations of Lookup::emplace (2 confirmed on the reviewed tree)" % len(impls)
+    for fn in impls:
+        ins = [(bi, t) for bi, t in fn.calls() if t["callee"].get("name") in ("or_insert", "insert", "or_insert_with", "insert_entry")]
+        ent = [(bi, t) for bi, t in fn.calls() if t["callee"].get("name") == "entry"]
+        ck = [(bi, t) for bi, t in fn.calls() if t["callee"].get("name") == "contains_key"]
+        if len(ins) != 1 or len(ent) != 1 or len(ck) != 1 or ins[0][1]["callee"].get("name") != "or_insert":
+            return False, "%s: shape not recognised (one contains_key, one entry, one or_insert)" % fn.path
+        if {d for d, p in origins(fn, ins[0][1]["args"][1])} != {("param", 3)}:
+            return False, "%s: the value inserted is not the entry that was passed in" % fn.path
+        if not flows_into(fn, ent[0][0], ins[0][1]["args"][0]):
+            return False, "%s: or_insert is not applied to the entry() of this map" % fn.path
+        k1 = {d for d, p in origins(fn, ent[0][1]["args"][1])}
+        k2 = {d for d, p in origins(fn, ck[0][1]["args"][1])}
+        if k1 != k2 or not k1:
+            return False, "%s: contains_key tests %s but the entry is stored under %s: an existing entry (possibly a function) can be returned as if freshly stored" % (fn.path, sorted(map(str, k2)), sorted(map(str, k1)))
+        be = _bool_edges(fn, ck[0][0])
+        if not be or not (be[1] == ent[0][0] or _dominated_by_edge(fn, ent[0][0], be[0], be[1])):
+            return False, "%s: the insertion is not confined to the branch where contains_key was false" % fn.path
+        oks = [(bi, si, st) for bi, si, st in fn.assigns() if st["pl"]["l"] == 0 and isinstance(st["rv"].get("agg"), dict) and st["rv"]["agg"].get("variant") == "Ok"]
+        for bi, si, st in oks:
+            ops = st["rv"].get("ops") or []
+            if not ops or not flows_into(fn, ins[0][0], ops[0]):
+                return False, "%s: Ok(..) does not carry the entry returned by or_insert" % fn.path
+        if not oks:
+            return False, "%s: no Ok(..) construction found" % fn.path
     # the derived From<Val> builds the Var variant
     for fn in F.all_fns():
         if "From<exec::val::Val>>::from" in fn.path and "SymTableEntry" in fn.path:
